@@ -563,6 +563,21 @@ func cmdCheck(o options, prop string) int {
 	for k := range depUsed {
 		deps = append(deps, "assumed contract: "+strings.Replace(k, "|", ".", 1))
 	}
+	// `assumes` clauses of the functions under contract for this property: preconditions no call site can check
+	for _, it := range items {
+		if it.fi == nil || it.fi.Spec == nil {
+			continue
+		}
+		for _, r := range it.fi.Spec.Requires {
+			if r.Kind == "assumes" {
+				nm := r.Name
+				if nm == "" {
+					nm = r.Text
+				}
+				deps = append(deps, "assumed precondition (not checked at call sites): "+shortKey(it.fi.Key)+" ["+nm+"]")
+			}
+		}
+	}
 	sort.Strings(deps)
 	assumptions := append([]string{}, cfg.Assumptions...)
 	assumptions = append(assumptions,
